@@ -74,13 +74,245 @@ def run_for_property(prop, seed=0, only=None, timeout=900):
     return results
 
 
+# ------------------------------------------------------------------------------------------------
+# counterexamples for failed Verus obligations (harnesses.json: "pairs")
+# ------------------------------------------------------------------------------------------------
+TEST_CACHE = os.path.join(VERIF, ".cache", "cex-test-target")
+CEX_BUDGET = 360            # seconds per call, everything included
+_CEX_SEQ = [0]
+_CEX_MEMO = {}
+
+
+def _mod_name(module):
+    return "verif_kani_" + re.sub(r"\W", "_", os.path.basename(module))[:-3]
+
+
+def _crate_path(target_file):
+    # src/core/per.rs -> core::per ; src/core/mod.rs -> core
+    p = re.sub(r"^src/", "", target_file)[:-3].split("/")
+    if p[-1] in ("mod", "lib"):
+        p = p[:-1]
+    return "::".join(p)
+
+
+def parse_playback(out):
+    """the byte vectors of the FIRST concrete playback unit test printed by `--concrete-playback=print`, in order"""
+    m = re.search(r"let concrete_vals: Vec<Vec<u8>> = vec!\[(.*?)\n\s*\];", out, re.S)
+    if not m:
+        return None
+    vecs = []
+    for line in m.group(1).splitlines():
+        line = line.strip()
+        if line.startswith("//") or not line:
+            continue
+        mm = re.match(r"vec!\[([0-9,\s]*)\],?$", line)
+        if not mm:
+            return None
+        vecs.append([int(x) for x in mm.group(1).replace(" ", "").split(",") if x != ""])
+    return vecs
+
+
+def decode_inputs(layout, raw):
+    """harness inputs from the raw bytes, in the fixed order documented in the harness module.
+    layout items: [name, "stream", cap] = cap bytes then one length byte n (the function sees the first n bytes);
+                  [name, "bytes", cap]  = the same for a byte-slice argument; [name, "u8"|"u16"|"u32"] little-endian"""
+    o, data, args, ok = 0, None, {}, True
+    for it in layout:
+        name, kind = it[0], it[1]
+        if kind in ("stream", "bytes"):
+            cap = it[2]
+            n = raw[o + cap]
+            val = raw[o:o + min(n, cap)]
+            ok = ok and n <= cap
+            o += cap + 1
+            if kind == "stream":
+                data = val
+            else:
+                args[name] = val
+        else:
+            w = {"u8": 1, "u16": 2, "u32": 4}[kind]
+            args[name] = int.from_bytes(bytes(raw[o:o + w]), "little")
+            o += w
+    return dict(data=data, args=args, raw=list(raw), inside_domain=ok)
+
+
+def _rust_lit(v):
+    if isinstance(v, list):
+        return "[" + ", ".join("%du8" % b for b in v) + "]" if v else "[0u8; 0]"
+    return str(v)
+
+
+def replay_test_source(ent, modname, inputs):
+    """a plain #[test] (no Kani): first prints what the real function returns on the decoded inputs (a panic there already is the
+    failure), then runs the harness body check_<fn> — real function + reference assertions — on the same raw bytes"""
+    raw = inputs["raw"]
+    subst = dict(inputs["args"])
+    if inputs["data"] is not None:
+        subst["data"] = inputs["data"]
+    lines = ["#[cfg(test)]", "mod verif_replay {",
+             "    // failing input found by Kani (harness %s), replayed natively; inputs: %s" % (ent["harness"], json.dumps({k: subst[k] for k in sorted(subst)})),
+             "    #[test]", "    fn verif_replay_%s() {" % ent["harness"]]
+    obs = ent.get("observe")
+    if obs:
+        for k, v in subst.items():
+            obs = obs.replace("{%s}" % k, _rust_lit(v))
+        lines.append("        eprintln!(\"real function returns: {:?}\", { %s });" % obs)
+    lines.append("        super::%s::%s(&[%s]);" % (modname, ent["check"], ", ".join(str(b) for b in raw)))
+    lines += ["    }", "}"]
+    return "\n".join(lines) + "\n"
+
+
+def _forget_artifacts(cache, scratch):
+    """the artefacts of a scratch path are keyed by a hash of that path and would pile up in the shared target directories"""
+    try:
+        for root, dirs, files in os.walk(cache):
+            for f in files:
+                if not (f.startswith("rdp-") and f.endswith(".d")):
+                    continue
+                p = os.path.join(root, f)
+                try:
+                    if scratch + "/" not in open(p, errors="replace").read():
+                        continue
+                except OSError:
+                    continue
+                h = f[4:-2]
+                if os.path.basename(root) == "out" and os.path.basename(os.path.dirname(root)) == h:
+                    shutil.rmtree(os.path.dirname(root), ignore_errors=True)      # build/<pkg>/<hash>/{out,fingerprint}
+                else:
+                    for g in os.listdir(root):                                    # deps/rdp-<hash>*, deps/librdp-<hash>*
+                        if g.startswith("rdp-" + h) or g.startswith("librdp-" + h):
+                            try:
+                                os.remove(os.path.join(root, g))
+                            except OSError:
+                                pass
+    except Exception:
+        pass
+
+
 def counterexample_for(prop, qname, failure, seed=0):
-    """concrete playback for a failed Verus obligation when a paired harness exists (harnesses.json: "pairs")"""
-    return None
+    """A concrete failing input for a failed Verus obligation of `qname`, when harnesses.json "pairs" has a harness for that function.
+    1. scratch copy of the tree under check (VERIF_REPO), harness module attached as a child of the target file;
+    2. `cargo kani --harness <h> --exact -Z concrete-playback --concrete-playback=print`: the harness compares the REAL function with an
+       executable reference over fully symbolic inputs; when it fails Kani prints the input bytes;
+    3. a plain #[test] is generated from those bytes and run with `cargo test` (no Kani): confirmed = that native test fails.
+    Returns None when no harness is paired; otherwise a dict (confirmed True/False; tool errors are reported in "error")."""
+    ent = registry().get("pairs", {}).get(qname)
+    if not ent:
+        return None
+    if (REPO, qname) in _CEX_MEMO:      # several obligations of one function fail together: one search per function and tree
+        return _CEX_MEMO[(REPO, qname)]
+    res = _counterexample(ent, qname)
+    _CEX_MEMO[(REPO, qname)] = res
+    return res
+
+
+def _counterexample(ent, qname):
+    t0 = time.time()
+    deadline = t0 + CEX_BUDGET
+    _CEX_SEQ[0] += 1
+    d = "/var/tmp/rdp-verif-cex.%d.%d" % (os.getpid(), _CEX_SEQ[0])
+    res = dict(confirmed=False, harness=ent["harness"], function=qname, domain=ent.get("domain"), tree=REPO, backend="kani 0.68 / cbmc + native cargo test")
+    try:
+        if os.path.exists(d):
+            shutil.rmtree(d)
+        os.makedirs(d)
+        subprocess.check_call(["rsync", "-a", "--exclude", "target", "--exclude", ".git", REPO + "/", d + "/"])
+        tf = os.path.join(d, ent["target_file"])
+        modname = _mod_name(ent["module"])
+        with open(tf, "a") as fh:
+            fh.write('\n#[cfg(any(kani, test))]\n#[path = "%s"]\nmod %s;\n' % (os.path.join(KDIR, ent["module"]), modname))
+        full = "%s::%s::proofs::%s" % (_crate_path(ent["target_file"]), modname, ent["harness"])
+        env = dict(os.environ, CARGO_NET_OFFLINE="true", CARGO_TARGET_DIR=CACHE, RUST_BACKTRACE="0")
+        os.makedirs(CACHE, exist_ok=True)
+        cmd = ["cargo", "kani", "--lib", "--harness", full, "--exact", "-Z", "concrete-playback", "--concrete-playback=print"] + ent.get("args", [])
+        res["kani_cmd"] = " ".join(cmd)
+        try:
+            p = subprocess.run(cmd, cwd=d, env=env, stdout=subprocess.PIPE, stderr=subprocess.STDOUT,
+                               timeout=max(10, min(ent.get("timeout", 300), deadline - time.time() - 45)))
+            out = p.stdout.decode("utf-8", "replace")
+        except subprocess.TimeoutExpired:
+            res["error"] = "kani timeout"
+            return res
+        res["kani_wall_s"] = round(time.time() - t0, 1)
+        fails = re.findall(r"Failed Checks: (.*)", out)
+        res["kani_failed_checks"] = fails[:8]
+        if "VERIFICATION:- SUCCESSFUL" in out:
+            res["kani_status"] = "SUCCESSFUL"
+            res["note"] = "the paired harness finds no failing input in its domain on this tree (the violated obligation is not visible to the executable reference, or needs inputs outside the domain)"
+            return res
+        if "VERIFICATION:- FAILED" not in out:
+            res["kani_status"] = "ERROR"
+            res["error"] = "kani did not reach a verdict: " + out[-1500:]
+            return res
+        res["kani_status"] = "FAILED"
+        if fails and all("unwinding assertion" in f_ for f_ in fails):
+            res["error"] = "only unwinding assertions failed: the harness bound is too small for this tree, nothing was refuted"
+            return res
+        vecs = parse_playback(out)
+        if not vecs:
+            res["error"] = "no concrete playback test in the Kani output: " + out[-1500:]
+            return res
+        raw = [b for v in vecs for b in v]
+        if len(raw) != ent["raw_len"]:
+            res["error"] = "playback has %d bytes, the harness reads %d" % (len(raw), ent["raw_len"])
+            res["playback_vectors"] = vecs
+            return res
+        inputs = decode_inputs(ent["layout"], raw)
+        res["inputs"] = inputs
+        res["call"] = ent.get("call")
+        # ---- native confirmation
+        src = replay_test_source(ent, modname, inputs)
+        res["replay_test"] = src
+        res["replay_how"] = ("append `#[cfg(test)] #[path = \"%s\"] mod %s;` and this module to %s of the tree under check, then `cargo test --offline --lib verif_replay`"
+                             % (os.path.join(KDIR, ent["module"]), modname, ent["target_file"]))
+        with open(tf, "a") as fh:
+            fh.write("\n" + src)
+        os.makedirs(TEST_CACHE, exist_ok=True)
+        env2 = dict(os.environ, CARGO_NET_OFFLINE="true", CARGO_TARGET_DIR=TEST_CACHE, RUST_BACKTRACE="0", CARGO_INCREMENTAL="0")
+        try:
+            p2 = subprocess.run(["cargo", "test", "--offline", "--lib", "verif_replay"], cwd=d, env=env2, stdout=subprocess.PIPE, stderr=subprocess.STDOUT,
+                                timeout=max(10, deadline - time.time()))
+            out2 = p2.stdout.decode("utf-8", "replace")
+        except subprocess.TimeoutExpired:
+            res["error"] = "native replay timeout"
+            return res
+        tname = "verif_replay_" + ent["harness"]
+        ran_failed = re.search(r"test \S*%s \.\.\. FAILED" % re.escape(tname), out2) is not None
+        ran_ok = re.search(r"test \S*%s \.\.\. ok" % re.escape(tname), out2) is not None
+        m = re.search(r"---- \S*%s stdout ----\n(.*?)\n\n\nfailures:" % re.escape(tname), out2, re.S)
+        res["native_output_tail"] = (m.group(1) if m else out2[-1500:]).replace(d, "<tree>")[-1500:]
+        mo = re.search(r"real function returns: (.*)", out2)
+        if mo:
+            res["real_function_returns"] = mo.group(1).strip()
+        if ran_failed:
+            res["confirmed"] = True
+        elif ran_ok:
+            res["note"] = "Kani reports a failing input but the native replay passes (difference between the Kani model and native execution?)"
+        else:
+            res["error"] = "native replay did not run: " + out2[-1500:]
+        return res
+    except Exception as e:
+        res["error"] = repr(e)
+        return res
+    finally:
+        res["wall_s"] = round(time.time() - t0, 1)
+        shutil.rmtree(d, ignore_errors=True)
+        _forget_artifacts(CACHE, d)
+        _forget_artifacts(TEST_CACHE, d)
 
 
 if __name__ == "__main__":
     import sys
+    if len(sys.argv) > 1 and sys.argv[1] == "cex":
+        # python3 -m vx.kani cex [per::read_length ...]   (no name = every paired function) on the tree VERIF_REPO
+        names = sys.argv[2:] or sorted(registry().get("pairs", {}))
+        for q in names:
+            r = counterexample_for(None, q, {})
+            print(json.dumps(r if r is None else {k: v for k, v in r.items() if k not in ("replay_test", "native_output_tail")}))
+            if r and r.get("replay_test"):
+                print(r["replay_test"])
+                print(r.get("native_output_tail", ""))
+        sys.exit(0)
     for r in run_for_property(sys.argv[1], only=sys.argv[2:] or None):
         print(json.dumps({k: v for k, v in r.items() if k != "output"}))
         if r["status"] not in ("SUCCESSFUL",):
